@@ -371,6 +371,8 @@ impl<T: CloseValue> Drop for SlotGuard<T> {
         } else {
             unreachable!("move out of slot must only occur during drop")
         }
+        #[cfg(metrique_verif)]
+        crate::verif::sync_point("slotguard.sent");
     }
 }
 
